@@ -177,6 +177,16 @@ func (in *Interp) finishResult(res *PathResult) {
 		}
 	}()
 	res.Model = m
+	if res.Outcome == "deadlock" {
+		// a stall inside the region of a listed known finding is reported as that finding, not as a violation
+		for _, k := range in.known {
+			if k.cond.op == OpTrue {
+				res.Asserts = append(res.Asserts, AssertOut{Label: "deadlock", Known: k.id, Model: m})
+				res.Outcome = "deadlock-known"
+				break
+			}
+		}
+	}
 	for _, a := range in.asserts {
 		res.Asserts = append(res.Asserts, AssertOut{Label: a.Label, Failed: a.Failed, Unknown: a.Unknown, Known: a.Known, Model: a.Model})
 	}
